@@ -470,7 +470,14 @@ class DiffXReader(object):
                 validate.
         """
         fp = self._fp
-        content = fp.read(length)
+
+        try:
+            content = fp.read(length)
+        except OverflowError:
+            # The length is larger than anything a stream could hold.
+            raise DiffXParseError(
+                'The length "%s" is too large' % length,
+                linenum=self._linenum)
 
         if not content:
             # There's no content, and therefore nothing ending in a newline.
